@@ -636,7 +636,12 @@ func (sc *SubCache[EntityT, ExcerptT, CacheT]) evictIfNeeded() {
 		return
 	}
 
-	for _, id := range sc.lru.GetOldestToNewest() {
+	ids := sc.lru.GetOldestToNewest()
+	// The most recently used entity is the one that has just been loaded or created and is about
+	// to be handed to the caller: evicting it would give out an entity that is locked forever.
+	ids = ids[:len(ids)-1]
+
+	for _, id := range ids {
 		b := sc.cached[id]
 		if b.NeedCommit() {
 			continue
